@@ -7,6 +7,7 @@ installed, every operation on a path under ``seam.root`` goes through
 mutation log (all modes).  Paths outside the root are untouched.
 """
 import os
+import re
 import io
 import weakref
 import sys
@@ -454,6 +455,38 @@ def _uninstall():
 
 # --------------------------------------------------------------------------- #
 # trees: snapshot / restore / hash / replaying a mutation log
+
+
+# --------------------------------------------------------------------------- #
+# names
+#
+# Inside a crop directory the files that carry meaning have fixed names;
+# anything else there (temporary files of writers, whatever they are called)
+# is recognised as "not one of the official names", so that the checks do
+# not depend on how an implementation names its temporaries.
+
+_OFFICIAL = re.compile(
+    r"^(xyz-settings\.jbdmp|xyz-function\.clpkl|xyz-batch-\d+\.jbdmp|"
+    r"xyz-result-\d+\.jbdmp|batches|results)$")
+_STEM = re.compile(
+    r"^(xyz-(?:settings|function|batch-\d+|result-\d+)\.(?:jbdmp|clpkl))")
+
+
+def norm_rel(rel, tag=""):
+    """relative path with a non-official file name inside a crop directory
+    replaced by '<official stem>~tmp<tag>'; every other path unchanged"""
+    parts = rel.split(os.sep)
+    if not any(p.startswith(".xyz-") for p in parts[:-1]):
+        return rel
+    base = parts[-1]
+    if _OFFICIAL.match(base):
+        return rel
+    m = _STEM.match(base)
+    return os.sep.join(parts[:-1] + [(m.group(1) if m else "") + "~tmp" + tag])
+
+
+def is_temporary(rel):
+    return norm_rel(rel) != rel
 
 
 def snapshot(root):
